@@ -46,6 +46,8 @@ struct tdesc {
     uint32_t owner_nap_us, owner_gap_us;
     int owner_lane;
     int once_at; /* >= 0: at-exit callback number once_at is registered from inside an aws_thread_call_once function */
+    bool self_join;      /* manual thread that tries to join itself (refused by the library); its owner's join comes later */
+    int launch_returned; /* set (release) by the launcher once aws_thread_launch has returned */
 };
 
 static struct {
@@ -88,6 +90,7 @@ static void once_fn(void *user) {
     }
 }
 
+static uint64_t s_self_joins;
 static void thread_main(void *arg) {
     struct tdesc *d = arg;
     mon_ev_bind((unsigned)(d->id + 1));
@@ -115,6 +118,26 @@ static void thread_main(void *arg) {
             mon_violation("C20:at-exit-registration-failed", "aws_thread_current_at_exit failed on thread %d (error %d)", d->id, aws_last_error());
         }
     }
+#if !defined(__SANITIZE_THREAD__)
+    /* (not under ThreadSanitizer: its pthread_join interceptor forgets a thread id once a join on it was attempted, so the
+     * owner's real join afterwards would trip the tool, not the library) */
+    if (d->self_join && !d->managed) {
+        /* a shutdown routine that ends up running on the worker itself: the join is refused (pthread_join reports EDEADLK),
+         * the thread is still joinable and its owner's join has to wait for the function and the at-exit callbacks as ever */
+        int waited = 0;
+        while (!__atomic_load_n(&d->launch_returned, __ATOMIC_ACQUIRE) && waited++ < 20000) {
+            nap(100);
+        }
+        if (__atomic_load_n(&d->launch_returned, __ATOMIC_ACQUIRE)) {
+            int rc = aws_thread_join(&d->thread);
+            if (rc == AWS_OP_SUCCESS) {
+                mon_violation("C20:self-join-succeeded", "aws_thread_join called by thread %d on its own handle reported success", d->id);
+            }
+            __atomic_fetch_add(&s_self_joins, 1, __ATOMIC_RELAXED);
+            nap(1500);
+        }
+    }
+#endif
     for (int c = 0; c < d->nchildren; ++c) {
         launch_one(&S.t[d->children[c]]);
     }
@@ -152,6 +175,7 @@ static void launch_one(struct tdesc *d) {
     int rc = aws_thread_launch(&d->thread, thread_main, d, popt);
     int err = rc ? aws_last_error() : 0;
     d->launch_rc = rc;
+    __atomic_store_n(&d->launch_returned, 1, __ATOMIC_RELEASE);
     mon_ev(EV_LAUNCH_RET, (uint64_t)d->id, (uint64_t)(rc != 0), (uint64_t)err);
 }
 
@@ -207,6 +231,7 @@ static void generate(struct mon_rng *r) {
         struct tdesc *d = &S.t[i];
         d->natexit = mon_chance(r, 1, 2) ? 0 : (int)mon_below(r, MAX_ATEXIT + 1);
         d->once_at = (d->natexit && mon_chance(r, 1, 3)) ? (int)mon_below(r, (uint64_t)d->natexit) : -1;
+        d->self_join = !d->managed && mon_chance(r, 1, 4);
         d->sleep_before_us = mon_chance(r, 1, 2) ? 0 : (uint32_t)mon_below(r, 400);
         d->sleep_after_us = mon_chance(r, 1, 2) ? 0 : (uint32_t)mon_below(r, 600);
         if (mon_chance(r, 1, 8)) {
@@ -658,6 +683,7 @@ static void run_case(void) {
     mon_distinct("thread_completion_orders", order_hash);
 
     mon_count("scenarios", 1);
+    mon_count("manual_threads_that_tried_to_join_themselves", __atomic_exchange_n(&s_self_joins, 0, __ATOMIC_RELAXED));
     mon_count("threads_launched", (uint64_t)S.n);
     mon_count("managed_threads_finished_after_join_all_was_called", (uint64_t)unfinished_at_joinall);
     mon_count("pthread_create_failures_injected", perturb_creates_failed());
